@@ -418,7 +418,25 @@ func c20Run(c core.Case, env *core.Env) core.Result {
 	// more generally, any option set other than mke2fs's default: such errors are recorded per
 	// option set. On the default feature set every error is a violation.
 	unsupported := o.Type != "ext4" || has(o.Features, "^extent") || pred != "default-features"
+	// every lookup by path reads the whole directory again: in a directory of thousands of entries the per-path
+	// checks are done for an evenly spread sample (and the first and last twenty); the listing comparison
+	// further down still covers every name
+	inBig := 0
 	for _, f := range files {
+		if f.class == "file-in-two-level-htree-directory" {
+			inBig++
+		}
+	}
+	bigStep, bigSeen := inBig/500+1, 0
+	for _, f := range files {
+		if f.class == "file-in-two-level-htree-directory" && inBig > 1500 {
+			k := bigSeen
+			bigSeen++
+			if k%bigStep != 0 && k >= 20 && k < inBig-20 {
+				res.Count("verified.per_path_checks_sampled_out", 1)
+				continue
+			}
+		}
 		cause := f.class + "/" + pred
 		var fi iofs.FileInfo
 		var serr error
